@@ -460,7 +460,12 @@ func joinViews(ctx context.Context, scope *ReferenceScope, view *View, joinView 
 
 	if includeFields != nil {
 		includeIndices := NewUintPool(len(includeFields), LimitToUseUintSlicePool)
-		excludeIndices := NewUintPool(view.FieldLen()-len(includeFields), LimitToUseUintSlicePool)
+		excludeLen := view.FieldLen() - len(includeFields)
+		if excludeLen < 0 {
+			// a USING list that repeats a name can be longer than the joined view is wide
+			excludeLen = 0
+		}
+		excludeIndices := NewUintPool(excludeLen, LimitToUseUintSlicePool)
 		alternatives := make(map[int]int)
 
 		for i := range includeFields {
